@@ -337,6 +337,11 @@ def main : IO Unit := do
   out := add (firstDiff "Vec::clone" (vc.filterMap fun (c, v) =>
     let m := V.cloneVec c v w0
     if m.2.bad.isEmpty then some (vtag c v, showB (builtV (Gen.Fn.vec_clone c (v, w0))), showB m) else none)) out
+  out := add (firstDiff "Vec::split_off" (vci.map fun (c, v, i) =>
+    (vtag c v ++ s!" at={i}",
+      (match Gen.Fn.vec_split_off c i (v, w0) with
+        | ((v', w'), .ok o) => s!"{repr v'} {repr (some o)} bad={repr w'.bad}" | ((v', w'), .bad why) => s!"{repr v'} none bad={repr (w'.flag why).bad}" | ((v', w'), _) => s!"{repr v'} none bad={repr w'.bad}"),
+      (match V.splitOff c v i w0 with | (v', o, w') => s!"{repr v'} {repr o} bad={repr w'.bad}")))) out
   -- the lossy UTF-8 chunker on all strings of up to 3 boundary bytes (and a few longer ones)
   let bs : List UInt8 := [0x00, 0x41, 0x7F, 0x80, 0x8F, 0x90, 0x9F, 0xA0, 0xBF, 0xC0, 0xC2, 0xDF, 0xE0, 0xE1, 0xEC, 0xED, 0xEE, 0xEF, 0xF0, 0xF1, 0xF3, 0xF4, 0xF5, 0xFF]
   let strs : List (List UInt8) := (bs.map fun a => [a]) ++ (bs.flatMap fun a => bs.map fun b => [a, b]) ++
